@@ -107,11 +107,13 @@ struct span {
 
     /// \brief Constructs a span.
     /// \details Constructs a span that is a view over the range [first, first + count);
+    /// \pre extent == dynamic_extent or count == extent
     template <typename /*contiguous_iterator*/ It>
         requires detail::span_convertible_from<remove_reference_t<iter_reference_t<It>>, T>
     explicit(extent != dynamic_extent) constexpr span(It first, size_type count)
         : _storage{first, count}
     {
+        TETL_PRECONDITION(extent == dynamic_extent or count == extent);
     }
 
     /// Constructs a span. From a c style array.
@@ -153,6 +155,7 @@ struct span {
     explicit(extent != dynamic_extent) constexpr span(R&& r)
         : _storage{r.data(), ranges::size(r)}
     {
+        TETL_PRECONDITION(extent == dynamic_extent or ranges::size(r) == extent);
     }
 
     template <detail::span_convertible_from<T> U, size_t N>
@@ -160,6 +163,7 @@ struct span {
     explicit(extent != dynamic_extent and N == dynamic_extent) constexpr span(span<U, N> const& source) noexcept
         : _storage{source.data(), source.size()}
     {
+        TETL_PRECONDITION(extent == dynamic_extent or source.size() == extent);
     }
 
     /// \brief Constructs a span.
